@@ -356,8 +356,12 @@ class Body:
                 if ch in '([':
                     j = match_close(m, j)
                 elif ch == '{':
-                    brace = j
-                    break
+                    if m[mm.end():j].strip() == '':
+                        # `if { block } { then }`: a block expression as the condition (produced by rewrite R14)
+                        j = match_close(m, j)
+                    else:
+                        brace = j
+                        break
                 elif ch in ';}':
                     break
                 j += 1
